@@ -1,8 +1,8 @@
-\* exhaustive (quick): three nodes, log of up to 2 entries, one crash + restart; repaired leader branch
+\* exhaustive (thorough): log of up to 3 entries, one crash + restart
 SPECIFICATION Spec
 CONSTANTS
     Nodes = {1, 2, 3}
-    MaxLog = 2
+    MaxLog = 3
     MaxCrash = 1
     MaxSpurious = 0
     MaxHops = 2
